@@ -29,11 +29,24 @@ class C01(core.Check):
         "faces or whole lattice planes declared as merged patch pairs (slave corners get vertices of their own). Non-trivial = at least two blocks share an "
         "edge; distinct = different assembly/chops."
     )
-    assumptions = [
+    PROP_ASSUMPTIONS = [
         "expansion of a chop on a wire is an oracle (independent geometric-progression arithmetic in the harness; C03's subject)",
         "count resolution of size-based chops uses the library's Chop.calculate on the axis' average length (C03's subject)",
         "iteration order of Axis.neighbours / Wire.coincidents is read from the implementation and handed to the model as schedule",
     ]
+    assumptions = [
+        "wire lengths (Wire.length, floats) are read from the implementation and enter the model as exact rationals; the model "
+        "computes in exact arithmetic, the implementation in floats: specifications are compared to 1e-6 relative",
+        "the answers of the numeric solvers (brentq roots of s(1+c+..+c^(n-1)) = L, T**(1/(n-1))) are found by bisection in the "
+        "harness and accepted by the model only if they satisfy C03's exact specification of the step (residual 1e-9); counts, "
+        "preserved quantities, expansions per wire and the schedule are computed by the model",
+        "where the exact count of a size-based chop and the library's differ because a quotient sits on a whole number within float "
+        "rounding, the model continues with the library's count if it satisfies the count specification to 1e-9 (listed in B[..])",
+    ]
+    partial_note = (
+        "cases whose preserved size does not fit an edge or needs an extreme ratio (brentq bracket) are judged by the file oracles only, "
+        "not by the model; `count_start`/`count_end` with preserve=size need one validated solver answer per wire"
+    )
 
     def corpus(self) -> List[dict]:
         """the three propagation properties share their minimised cases"""
@@ -68,15 +81,40 @@ class C01(core.Check):
     def shrink_candidates(self, case: dict) -> List[dict]:
         return pc.shrink_candidates(case)
 
+    # which model answers the main comparison: "geo" = c04.run (M-PROP with the chop calculator inside: counts, preserved
+    # quantities, expansions and schedule computed by the model from the chop arguments, vertex indexes and wire lengths),
+    # "prop" = c01.run (M-PROP on the schedule read from the implementation, expansions supplied by the harness).
+    # Given the schedule comparison (always made), "geo" covers everything "prop" compares.
+    model_paths = ("geo",)
+
+    def _model_requests(self, internals: dict, chops: List[dict]) -> List[str]:
+        out = []
+        if "prop" in self.model_paths:
+            out.append(pc.model_request(internals, chops))
+        if "geo" in self.model_paths:
+            out.append(pc.geo_request(internals, chops))
+        return out
+
+    def _model_compare(self, obs: dict, answers: List[str]) -> Optional[str]:
+        k = 0
+        if "prop" in self.model_paths:
+            why = pc.compare_with_model(obs, answers[k], level=self.compare_level)
+            if why:
+                return why
+            k += 1
+        if "geo" in self.model_paths:
+            return pc.compare_geo(obs, answers[k], level=self.compare_level)
+        return None
+
     def requests(self, case: dict, impl: Any) -> List[str]:
         if "internals" not in impl or impl.get("chop_error") or impl.get("unrealisable") or impl.get("extreme"):
             return []
         # (the last request is always the schedule: neighbours and coincident wires built from the vertex indexes)
-        reqs = [pc.model_request(impl["internals"], impl["chops"])]
+        reqs = self._model_requests(impl["internals"], impl["chops"])
         m3 = (impl.get("third") or {}).get("model")
         if m3:
             # the write after the late chops against a fresh model run on all chops placed so far (M-HIST)
-            reqs.append(pc.model_request(m3["internals"], m3["chops"]))
+            reqs += self._model_requests(m3["internals"], m3["chops"])
         reqs.append(pc.sched_request(impl["internals"]))
         return reqs
 
@@ -84,10 +122,11 @@ class C01(core.Check):
         why = pc.compare_sched(impl["internals"], model[-1])
         if why:
             return why
-        why = pc.compare_with_model(impl, model[0], level=self.compare_level)
+        k = len(self.model_paths)
+        why = self._model_compare(impl, model[:k])
         m3 = (impl.get("third") or {}).get("model")
-        if why is None and m3 and len(model) > 2:
-            why = pc.compare_with_model(m3, model[1], level=self.compare_level)
+        if why is None and m3 and len(model) > 2 * k:
+            why = self._model_compare(m3, model[k : 2 * k])
             if why:
                 why = "write after late chops (session of M-HIST): " + why
         return why
